@@ -156,6 +156,74 @@ SCRIPTS = [
 ]
 
 
+# generated DML: full products over small shape alphabets (the hand-kept list above stays as named regression inputs)
+SET_OPTS = [
+    ('const', 'a = 5'), ('null', 'a = NULL'), ('two_swap', 'a = x + 1, x = a'), ('neg', 'a = - a'), ('neg_const', 'a = -1'),
+    ('scalar_subquery', 'a = (SELECT max(t2.b) FROM t2)'), ('case', 'a = CASE WHEN x > 10 THEN 1 ELSE 0 END'),
+    ('arith_prec', 'a = a + x * 2'), ('arith_paren', 'a = (a + x) * 2'), ('minus_paren', 'x = x - (a - 1)'), ('str_quote', "a = 'it''s'"),
+    ('float', 'a = 1.5'), ('true', 'a = TRUE'), ('coalesce', 'a = coalesce(a, 0)'), ('cmp', 'a = x > 10'), ('isnull', 'x = a IS NULL'),
+    ('three', 'id = id + 10, a = 0, x = NULL'), ('qualified', 't1.a = 5') if False else ('cast', 'a = CAST(x AS int)'),
+]
+INSERT_COLS = [('all', ['id', 'a', 'x']), ('perm', ['x', 'id', 'a']), ('two', ['a', 'id']), ('one', ['id'])]
+INSERT_VALS = [('ints', ['9', '1', '2']), ('nulls', ['NULL', 'NULL', 'NULL']), ('neg', ['-9', '-1', '- 2']), ('strs', ["'9'", "'it''s'", "''"]),
+               ('floats', ['9.0', '1.5', '0.25']), ('bools', ['9', 'TRUE', 'FALSE']), ('arith', ['9 + 1', '2 * 3 + 1', '2 * (3 + 1)']),
+               ('minus_paren', ['9', '5 - (2 - 1)', '5 - 2 - 1']), ('mixed', ['10', "'1'", '1.0'])]
+INSERT_ROWS = [('one', 1), ('two_rows', 2), ('three_rows', 3)]
+
+
+def dmlgen_cases():
+    out = []
+    for si in range(len(SET_OPTS)):
+        for wi in range(len(WHERE_OPTS)):
+            out.append(('update', si, wi))
+    for wi in range(len(WHERE_OPTS)):
+        out.append(('delete', 0, wi))
+    for ci in range(len(INSERT_COLS)):
+        for vi in range(len(INSERT_VALS)):
+            for ri in range(len(INSERT_ROWS)):
+                out.append(('insert', ci, vi * 10 + ri))
+    return out
+
+
+def dmlgen_sql(kind, i, j):
+    """-> (sql, label parts) ; WHERE shapes are the SELECT model's (table-qualified columns, sub-queries on t2)"""
+    if kind == 'update':
+        w = WHERE_OPTS[j][1]
+        return f'UPDATE t1 SET {SET_OPTS[i][1]}' + (f' WHERE {w}' if w else ''), {'set': SET_OPTS[i][0], 'where': WHERE_OPTS[j][0]}
+    if kind == 'delete':
+        w = WHERE_OPTS[j][1]
+        return 'DELETE FROM t1' + (f' WHERE {w}' if w else ''), {'where': WHERE_OPTS[j][0]}
+    if kind == 'insert':
+        vi, ri = divmod(j, 10)
+        cols = INSERT_COLS[i][1]
+        vals = INSERT_VALS[vi][1]
+        order = ['id', 'a', 'x']
+        rows = []
+        for r in range(INSERT_ROWS[ri][1]):
+            # later rows rotate the value list so that twin / differently typed values meet in one statement
+            vv = vals[r % 3:] + vals[:r % 3]
+            rows.append('(' + ', '.join(vv[order.index(c)] for c in cols) + ')')
+        return f'INSERT INTO t1 ({", ".join(cols)}) VALUES ' + ', '.join(rows), {'cols': INSERT_COLS[i][0], 'vals': INSERT_VALS[vi][0], 'rows': INSERT_ROWS[ri][0]}
+    if kind == 'insert_select':
+        q = build(dict(zip(FEATURES, i)))
+        n = len(out_names_of(q))
+        tgt = {2: 't3 (id, c)', 3: 't2 (id, b, y)'}.get(n)
+        if tgt is None:
+            return None, None
+        return f'INSERT INTO {tgt} ' + q['sql'], {'select': q['label']}
+    raise ValueError(kind)
+
+
+def out_names_of(q):
+    """number of output columns of a generated SELECT, read from sqlite itself"""
+    con = sqlref.make_db({'t1': [], 't2': [], 't3': []})
+    try:
+        r = sqlref.run(con, q['sql'])
+        return r[1] if r[0] == 'rows' else []
+    finally:
+        con.close()
+
+
 def build(assign):
     """-> dict(sql, full_sql (no order/limit), spec, limit, offset, aliases, ncols) or None if the combination is not meaningful"""
     tl, tsel, tcols, taliases, tagg = TARGET_OPTS[assign['targets']]
@@ -351,6 +419,14 @@ class CHECK(Check):
             out.append(('dml', name))
         for name, stmts in SCRIPTS:
             out.append(('script', name))
+        for c in dmlgen_cases():
+            out.append(('dmlgen', c))
+        # INSERT ... SELECT over the SELECT model: <= 1 non-default feature (thorough 2) + join x where
+        for a in qgen.assignments(FEATURES, 2 if self.tier == 'thorough' else 1, full_products=[('join', 'where'), ('order', 'limit')]):
+            if build(a) is not None:
+                key = tuple(a[n] for n in FEATURES)
+                if dmlgen_sql('insert_select', key, 0)[0] is not None:
+                    out.append(('dmlgen', ('insert_select', key, 0)))
         return out
 
     def ensure(self):
@@ -422,6 +498,32 @@ class CHECK(Check):
             return self.run_dml(res, payload)
         if kind == 'script':
             return self.run_script(res, payload)
+        if kind == 'dmlgen':
+            sql, parts = dmlgen_sql(*payload)
+            self.choose_dbs(2)
+            name = payload[0] + ':' + ','.join(f'{k}={v}' for k, v in parts.items())
+            r = self.run_dml(res, name, sql)
+            if r.violations and payload[0] == 'insert_select':
+                # a failure the bare SELECT shows as well belongs to (and is reported by) the SELECT case
+                sel_fails = {(t, k) for t, k, _ in self.evaluate(build(dict(zip(FEATURES, payload[1]))))}
+                r.violations = [v for v in r.violations if tuple(v[0].split('|')[:2]) not in sel_fails]
+            if r.violations and payload[0] in ('update', 'insert'):
+                # attribute to one shape where a single non-default shape already fails the same way
+                kinds = {v[0].rsplit('|', 1)[0] for v in r.violations}
+                if payload[0] == 'update':
+                    reduced = [('update', payload[1], 0), ('update', 0, payload[2])]
+                else:
+                    vi, ri = divmod(payload[2], 10)
+                    reduced = [('insert', payload[1], vi * 10), ('insert', 0, payload[2]), ('insert', 0, vi * 10), ('insert', payload[1], 0)]
+                for alt in reduced:
+                    if alt == payload:
+                        continue
+                    sql2, parts2 = dmlgen_sql(*alt)
+                    r2 = self.run_dml(Result(), alt[0] + ':' + ','.join(f'{k}={v}' for k, v in parts2.items()), sql2)
+                    if {v[0].rsplit('|', 1)[0] for v in r2.violations} & kinds:
+                        r.violations = []      # reported by the simpler case
+                        break
+            return r
         assign = dict(zip(FEATURES, payload))
         q = build(assign)
         res.key(q['sql'])
@@ -443,12 +545,16 @@ class CHECK(Check):
             res.violation(f'{t}|{k}|{label(cur, True)}', msg + f'\n    minimal failing features: {label(cur)} (from {label(assign)})')
         return res
 
-    def run_dml(self, res, name):
+    def run_dml(self, res, name, sql=None):
         self.ensure()
-        sql = dict(DML)[name]
+        generated = sql is not None
+        sql = sql or dict(DML)[name]
         res.key(sql)
         out = parsing.outcome(sql, 'mindsdb')
         if out.kind != 'ok':
+            if generated:
+                res.count('generated_dml_not_accepted_by_the_parser')
+                return res
             res.violation(f'parser|original-not-parsed|{name}', f'{sql!r}: {out.kind}')
             return res
         rendered = {}
@@ -460,25 +566,36 @@ class CHECK(Check):
             except Exception:
                 res.count('render_internal_error_(C17)')
         done = set()
-        for db in self.dbs:
+
+        def effect(con, db, text):
+            """tables after executing text on a database with content db -> (dump, error)"""
+            if generated:
+                # persistent connection, statement undone afterwards (sqlite DDL is transactional too)
+                con.execute('BEGIN')
+                try:
+                    con.execute(text)
+                    return sqlref.dump(con), None
+                except sqlite3.Error as e:
+                    return None, str(e)
+                finally:
+                    con.rollback()
             con = sqlref.make_db(db)
             try:
-                con.execute(sql)
-                want = sqlref.dump(con)
-                werr = None
+                con.execute(text)
+                return sqlref.dump(con), None
             except sqlite3.Error as e:
-                want, werr = None, str(e)
-            con.close()
+                return None, str(e)
+            finally:
+                con.close()
+
+        idx = self.active if self.active is not None else range(len(self.dbs))
+        for i in idx:
+            db, pcon = self.dbs[i], self.cons[i]
+            want, werr = effect(pcon, db, sql)
             for t, text in rendered.items():
                 if t in done:
                     continue
-                con = sqlref.make_db(db)
-                try:
-                    con.execute(text)
-                    got, gerr = sqlref.dump(con), None
-                except sqlite3.Error as e:
-                    got, gerr = None, str(e)
-                con.close()
+                got, gerr = effect(pcon, db, text)
                 res.count('executions')
                 if werr is not None:
                     if gerr is None:
@@ -559,12 +676,14 @@ class CHECK(Check):
         return {'exhaustive': True, 'databases': len(self.dbs), 'databases_used_for_cases_with_3_deviations': len(self.narrow) if self.narrow is not None else len(self.dbs), 'targets': TARGETS,
                 'features': {n: [o[0] if isinstance(o, tuple) else o for o in opts] for n, opts in FEATURES.items()},
                 'rule': 'all feature assignments with <= d non-default features (quick d=2, thorough d=3) + full products join x where, join x order x limit, '
-                        'join x targets, wrap x order x limit; 29 DML/DDL statements; every statement on every database; distinct_nontrivial = distinct SQL texts'}
+                        'join x targets, wrap x order x limit; 29 hand-kept DML/DDL statements + generated DML (UPDATE set shape x WHERE shape, DELETE x WHERE shape, INSERT column list x value kinds x row count, INSERT ... SELECT x SELECT model with <= 1 (thorough 2) non-default features); every statement on every database; distinct_nontrivial = distinct SQL texts'}
 
     def describe_case(self, case):
         if case[0] == 'script':
             return {'kind': 'script', 'name': case[1], 'statements': dict(SCRIPTS)[case[1]]}
         if case[0] == 'dml':
             return {'kind': 'dml', 'sql': dict(DML)[case[1]]}
+        if case[0] == 'dmlgen':
+            return {'kind': 'dml (generated)', 'sql': dmlgen_sql(*case[1])[0]}
         q = build(dict(zip(FEATURES, case[1])))
         return {'kind': 'select', 'features': q['label'], 'sql': q['sql']}
